@@ -87,16 +87,27 @@ def run(ctx):
             r3.check(ok, inst, where, detail, path)
     # split flags: every fmtqfn/fnnum literal prefix uses one split flag across the three programs
     flags = {}
+
+    def site_pairs(unitname, fn, la, fa, depth=0):
+        """(prefix literal, split flag) pairs of one fmtqfn/fnnum call: its own arguments, or, where one is a parameter
+        of fn, the matching arguments of every call of fn in the unit (both taken from the same call)"""
+        lit, fl = la.string, fa.const
+        lp, fp = la.strip().path(), fa.strip().path()
+        lk = fn.params.index(lp) if lit is None and lp in fn.params else None
+        fk = fn.params.index(fp) if fl is None and fp in fn.params else None
+        if (lk is None and fk is None) or depth >= 3:
+            return [(lit, fl)] if lit is not None and fl is not None else []
+        out = []
+        for g in db.unit(unitname).functions.values():
+            for cc in g.calls(fn.name):
+                if max(k for k in (lk, fk) if k is not None) < len(cc.args):
+                    out.extend(site_pairs(unitname, g, cc.args[lk] if lk is not None else la, cc.args[fk] if fk is not None else fa, depth + 1))
+        return out
     for unit in ('qmail-queue.c', 'qmail-send.c', 'qmail-clean.c'):
         for fn in db.unit(unit).functions.values():
             for c in fn.calls(('fmtqfn', 'fnnum')):
-                lit = None
-                fl = None
-                if c.callee == 'fmtqfn':
-                    lit, fl = c.args[1].string, c.args[3].const
-                else:
-                    lit, fl = c.args[0].string, c.args[1].const
-                if lit is not None and fl is not None:
+                li, fi = (1, 3) if c.callee == 'fmtqfn' else (0, 1)
+                for lit, fl in site_pairs(unit, fn, c.args[li], c.args[fi]):
                     flags.setdefault(lit, set()).add((fl != 0, '%s:%s' % (unit, fn.name)))
     for lit, s in sorted(flags.items()):
         vals = {v for v, _ in s}
